@@ -293,7 +293,6 @@ Print Assumptions C03_raising_accessor_propagates.
 
 (* ---- non-vacuity: three events (one empty), status codes given as a list: every event is represented,
    the unset status (NaN) is dropped, order and identity (pid) are kept *)
-Definition ex_p (i : Z) (st : Fval) : pobs := mkP i (fun a => match a with A_status => Ret st | _ => Ret NaN end).
 Theorem C03_example :
   match gen_particle_status [[ex_p 1 (Fin 1); ex_p 2 NaN; ex_p 3 (Fin 0)]; []; [ex_p 4 (Fin 2); ex_p 5 (Fin 1)]]
                             (VList [VInt 1; VInt 0]) with
